@@ -403,6 +403,7 @@ func (p *eparser) primary() Expr {
 // ---------- contracts ----------
 
 type Clause struct {
+	Assumed bool
 	Label string
 	Src   string
 	E     Expr
@@ -472,7 +473,7 @@ func newContractSet() *ContractSet {
 }
 
 var clauseKeywords = map[string]bool{
-	"func": true, "props": true, "requires": true, "ensures": true, "modifies": true,
+	"func": true, "props": true, "requires": true, "ensures": true, "modifies": true, "assume-ensures": true,
 	"pure": true, "trusted": true, "maypanic": true, "deadpoints": true, "loop": true, "site": true, "let": true,
 	"define": true, "global": true, "ghost": true, "skip": true, "note": true, "package": true, "thorough": true,
 }
@@ -631,6 +632,16 @@ func (cs *ContractSet) parseContractFile(path, pkgPath string, goFile bool) erro
 				if err != nil {
 					return fail(err)
 				}
+				cur.Ensures = append(cur.Ensures, c)
+			case "assume-ensures":
+				// a postcondition callers may use but that is NOT verified against
+				// the body: a named assumption (coin / hash non-degeneracy), listed
+				// in every evidence file that depends on it
+				c, err := mk(rest)
+				if err != nil {
+					return fail(err)
+				}
+				c.Assumed = true
 				cur.Ensures = append(cur.Ensures, c)
 			case "modifies":
 				for _, part := range splitTop(rest, ',') {
